@@ -5,3 +5,5 @@ open Photon.Chan
 #print axioms C09_false_only_close_or_timeout
 #print axioms C09_released
 #print axioms C09_unbuffered_overwrite_witness
+#print axioms Photon.ChanMV.C09_mv_at_most_once
+#print axioms Photon.ChanMV.C09_mv_all_received
